@@ -161,3 +161,22 @@ func (b *SM4Block) Encrypt(dst, src []byte) {
 func (b *SM4Block) Decrypt(dst, src []byte) {
 	copy(dst[:16], sm4Crypt(&b.rk, src[:16], true))
 }
+
+// SM4KeyWithRoundKeys returns the 16-byte key whose key schedule contains the four consecutive words w at positions
+// j..j+3 of the sequence K_0..K_35 (K_{i+4} = rk_i): the schedule recurrence is run backwards from there. With it a
+// key is SOLVED so that a chosen round key has a chosen value (rk_j = 0, 0xffffffff ...), a 2^-32 event per word.
+func SM4KeyWithRoundKeys(j int, w [4]uint32) []byte {
+	var k [36]uint32
+	copy(k[j:j+4], w[:])
+	for i := j + 4; i < 36; i++ {
+		k[i] = k[i-4] ^ SM4TPrime(k[i-3]^k[i-2]^k[i-1]^SM4CK[i-4])
+	}
+	for i := j - 1; i >= 0; i-- {
+		k[i] = k[i+4] ^ SM4TPrime(k[i+1]^k[i+2]^k[i+3]^SM4CK[i])
+	}
+	key := make([]byte, 16)
+	for i := 0; i < 4; i++ {
+		put32(key[4*i:], k[i]^SM4FK[i])
+	}
+	return key
+}
